@@ -197,12 +197,77 @@ def run(ctx):
             fs = [f for f in lexpr.fns if f.self_ty == ty and f.impl_trait == tr and not f.derived]
             if fs:
                 r3.ok("%s has a hand-written %s" % (ty, tr), fs[0])
+    drop_leaves_short_chain(ctx, lexpr)
     # "stack depth may grow only with nesting depth, which the parser bounds": every cycle of the parser's call graph is
     # charged to the depth limit (shared with C03)
     from .. import depth
     depth.check_depth(ctx, lexpr,
                       ctx.rule("R-DEPTH-CYCLE", "every cycle of the parser's call graph is charged to the depth limit"),
                       ctx.rule("R-DEPTH-BALANCE", "the depth counter is restored on every exit, stays in [-1,0], starts >= 101"))
+
+
+def drop_leaves_short_chain(ctx, lexpr):
+    """The hand-written Drop for Cons exists so that the drop glue, which recurses into the cdr, never sees a long
+    chain.  The structural rule above checks that the detaching loop is skipped only on tests of the chain's shape;
+    which shapes are skipped is decided here by evaluating the impl's own MIR on chains of 2..6 cells, proper and
+    dotted: when it returns, what still hangs off the cell it was given must be short (at most two further cells,
+    as on the reviewed tree) - cases with small n, not all lists."""
+    from .. import alist, cloneid, sim
+    from ..sim import Ref
+    r = ctx.rule("R-DROP-DETACH", "after the manual Drop of a cons cell has run, at most two further cells still hang off it, "
+                                  "for proper and dotted chains alike (the recursive drop glue never sees a long chain)")
+    fn = lexpr.fn("<cons::Cons as std::ops::Drop>::drop")
+    if fn is None:
+        r.note("Cons has no manual Drop on this tree (the drop-glue rule above decides that case)")
+        r.ok("no manual Drop for Cons to evaluate")
+        return
+    B = lambda x: alist.mk(lexpr, "Bool", x)
+    tails = {"the empty list": None, "a boolean": B(1), "#nil": alist.mk(lexpr, "Nil"), "a string": alist.name_value(lexpr, "String", b"t")}
+    n = und = 0
+
+    def as_left(p, x):
+        for memo in p.memos:
+            x = memo.get(id(x), x)
+        return x
+
+    def spine(d):
+        k = 0
+        while isinstance(d, tuple) and d and d[0] == "cons":
+            k += 1
+            d = d[2]
+        return k, d
+
+    for cells in (2, 3, 4, 6):
+        for tn, tail in tails.items():
+            v = alist.lst(lexpr, [B(i % 2) for i in range(cells)], tail)
+            cell = v.fields[0]
+            S = alist.make_sim(lexpr)
+            S.structural_box = True
+            S.inline = cloneid._inline_for(lexpr, ("value/index.rs", "value/mod.rs", "value/from.rs", "cons.rs", "number.rs"))
+            n += 1
+            what = "%d cells ending in %s" % (cells, tn)
+            try:
+                paths = [p for p in S.run(fn, args={1: Ref([cell], 0, ())}) if p.end == "return"]
+            except sim.Limit as e:
+                r.note("undecided: %s (%s)" % (what, e))
+                und += 1
+                continue
+            left = set()
+            for p in paths:
+                k, end = spine(alist.describe(S, p, as_left(p, cell)))
+                left.add(k - 1 if k else "?")
+            if not paths or "?" in left:
+                r.note("undecided: %s leaves %s" % (what, sorted(map(str, left))))
+                und += 1
+            elif max(left) <= 2:
+                r.ok("drop of a chain of %s leaves %s further cell(s) attached" % (what, sorted(left)), fn)
+            else:
+                r.violation(fn.path, "drop-leaves:%d:%s" % (cells, tn.replace(" ", "-")),
+                            "after Drop for Cons has run on a chain of %s, %d further cells still hang off the cell: the "
+                            "recursive drop glue then recurses once per remaining cell, so dropping a long list of this "
+                            "shape overflows the stack" % (what, max(left)), fn.loc())
+    r.floor("drop-cases", n)
+    r.floor("drop-decided", n - und)
 
 
 def PAYLOAD_MARKERS_IN(n):
